@@ -688,13 +688,18 @@ def run_roundtrip(case, obs):
     path = scratch_path('rt.fits')
     _rm(path)
     try:
-        with warnings.catch_warnings():
-            warnings.simplefilter('ignore')
+        with warnings.catch_warnings(record=True) as wfile:
+            warnings.simplefilter('always')
             target = full if full is not None else regs
             if api == 'Region':
                 target[0].write(path, format='fits')
             else:
                 Regions(target).write(path, format='fits')
+        if full is not None and api != 'Region':
+            # the file path warns about skipped members just as serialising does
+            ctx.check(len(wfile) >= 1, 'fits-skipped-without-warning',
+                      f'Regions.write(format="fits") dropped {sum(case["skipmask"])} member(s) FITS cannot express without a warning (serialize() warned {len(warns)}x)',
+                      'skipped-warning')
     except Exception as exc:      # noqa
         name = type(exc).__name__
         if 'COMPONENT' in table.colnames and np.asarray(table['COMPONENT']).dtype == object and isinstance(exc, TypeError):
